@@ -612,6 +612,8 @@ impl<'a> GeneratorState<'a> {
                     self.sasm(DEX)?;
                 }
                 self.flags = FlagsState::X;
+                // The carry of an earlier subtraction says nothing about X
+                self.carry_flag_ok = false;
                 Ok(ExprType::X)
             },
             ExprType::Y => {
@@ -621,6 +623,7 @@ impl<'a> GeneratorState<'a> {
                     self.sasm(DEY)?;
                 }
                 self.flags = FlagsState::Y;
+                self.carry_flag_ok = false;
                 Ok(ExprType::Y)
             },
             ExprType::Absolute(variable, eight_bits, offset) => {
